@@ -36,12 +36,12 @@ func TestMain(m *testing.M) {
 
 // script: what the scripted key-exchange server does on one connection.
 type script struct {
-	ALPN     string        `json:"alpn"` // "ntske/1" | "other" | "none" | "both"
-	Recs     []netlab.Rec  `json:"-"`
-	RecsDesc []string      `json:"records"`
-	CutAt    int           `json:"cut_at"`   // -1: whole stream; else only the first CutAt bytes are sent
-	Segments []int         `json:"segments"` // write sizes
-	Reset    string        `json:"reset"`    // "": close normally; "after-handshake": reset before sending anything; "after-send": reset after sending; "stall": keep the connection open, silent, for 5.5 s
+	ALPN     string       `json:"alpn"` // "ntske/1" | "other" | "none" | "both"
+	Recs     []netlab.Rec `json:"-"`
+	RecsDesc []string     `json:"records"`
+	CutAt    int          `json:"cut_at"`   // -1: whole stream; else only the first CutAt bytes are sent
+	Segments []int        `json:"segments"` // write sizes
+	Reset    string       `json:"reset"`    // "": close normally; "after-handshake": reset before sending anything; "after-send": reset after sending; "stall": keep the connection open, silent, for 5.5 s
 }
 
 func (s *script) stream() []byte {
@@ -53,11 +53,11 @@ func (s *script) stream() []byte {
 }
 
 type expectation struct {
-	success     bool // the statement's necessary conditions hold
-	mustSucceed bool // ... and nothing questionable is in the stream: the exchange has to succeed
-	cookies     [][]byte
-	server      string
-	port        uint16
+	success      bool // the statement's necessary conditions hold
+	mustSucceed  bool // ... and nothing questionable is in the stream: the exchange has to succeed
+	cookies      [][]byte
+	server       string
+	port         uint16
 	portUnjudged bool // a port record of a length other than 2 was sent
 }
 
@@ -275,7 +275,7 @@ func genScript(t *rapid.T) *script {
 		c := make([]byte, l)
 		v := rapid.Uint64().Draw(t, "cookie-fill")
 		for j := range c {
-			c[j] = byte(v >> (8 * uint(j%8))) ^ byte(j)
+			c[j] = byte(v>>(8*uint(j%8))) ^ byte(j)
 		}
 		recs = append(recs, netlab.Rec{Type: netlab.RecCookie, Body: c})
 	}
@@ -365,10 +365,10 @@ type failer interface {
 
 // exchangeOutcome performs one FetchData on f expecting a key exchange with script s.
 type model struct {
-	pool      [][]byte
-	c2s, s2c  []byte
-	server    string
-	port      uint16
+	pool     [][]byte
+	c2s, s2c []byte
+	server   string
+	port     uint16
 }
 
 func sameCookies(a, b [][]byte) bool {
